@@ -87,6 +87,17 @@ def run_impl(which, B, **kw):
         warnings.simplefilter("always")
         out = fn(B.copy(), **kw)
     require(isinstance(out, tuple) and len(out) == 2, "%s implementation must return (T, pi)" % which, got=type(out))
+    # the returned model belongs to the caller: estimating another matrix of the same size may not change it
+    snap = (np.array(out[0], copy=True), np.array(out[1], copy=True))
+    with warnings.catch_warnings():
+        warnings.simplefilter("ignore")
+        try:
+            fn(np.ascontiguousarray(B.T) + 1.0, max_iter=3)
+        except Exception:
+            pass
+    require(np.array_equal(np.asarray(out[0]), snap[0], equal_nan=True) and
+            np.array_equal(np.asarray(out[1]), snap[1], equal_nan=True),
+            "%s implementation: the model returned by an earlier call changed when another matrix was estimated" % which)
     T, pi = np.asarray(out[0], dtype=float), np.asarray(out[1], dtype=float).ravel()
     warned = any(issubclass(x.category, Warning) and "converge" in str(x.message).lower() for x in w)
     cats = [x.category.__name__ for x in w if "converge" in str(x.message).lower()]
